@@ -229,7 +229,8 @@ type Genesis struct {
 		Signers, WL     []string
 	}
 	Wrk, Bcn Fees
-	StrFee   string // 18-decimal scaled integer
+	StrFee   string      // 18-decimal scaled integer
+	Addrs    [][2]string // "G addr" lines in script order: token, lower-case hex of the address bytes (§6)
 	seen     map[string]bool
 }
 
@@ -249,6 +250,9 @@ func (g *Genesis) Lines() []string {
 		default:
 			out = append(out, fmt.Sprintf("G acct A%d none", i))
 		}
+	}
+	for _, a := range g.Addrs {
+		out = append(out, fmt.Sprintf("G addr %s %s", a[0], a[1]))
 	}
 	out = append(out, fmt.Sprintf("G ent denom=%s min=%d limit=%d signers=%s wl=%s startid=%d",
 		Tok(g.Ent.Denom), g.Ent.Min, g.Ent.Limit, List(g.Ent.Signers), List(g.Ent.WL), g.Ent.Sid))
@@ -280,7 +284,7 @@ func (g *Genesis) AddLine(toks []string) error {
 		g.seen = map[string]bool{}
 	}
 	what, rest := toks[1], toks[2:]
-	if what != "acct" {
+	if what != "acct" && what != "addr" {
 		if g.seen[what] {
 			return fmt.Errorf("duplicate G %s", what)
 		}
@@ -312,6 +316,16 @@ func (g *Genesis) AddLine(toks []string) error {
 			return fmt.Errorf("G acct: malformed %v", rest)
 		}
 		g.Accts = append(g.Accts, a)
+	case "addr":
+		if len(rest) != 2 || rest[1] == "" || rest[1] != strings.ToLower(rest[1]) {
+			return fmt.Errorf("G addr: want <token> <lower-case hex>")
+		}
+		for _, a := range g.Addrs {
+			if a[0] == rest[0] {
+				return fmt.Errorf("duplicate G addr %s", rest[0])
+			}
+		}
+		g.Addrs = append(g.Addrs, [2]string{rest[0], rest[1]})
 	case "ent":
 		var kv []string
 		if kv, err = keyvals(rest, "denom", "min", "limit", "signers", "wl", "startid"); err != nil {
